@@ -197,6 +197,26 @@ fn real_main() {
                 let err = pr.error.clone();
                 let syms = pr.var_symbols();
                 let (smt, names) = pr.finish(&body, case.no_ties && theory == Th::Real, fp_bound);
+                // a Float32 identity between two different DAGs is first tried with their COMMON sub-terms abstracted to
+                // free Float32 constants and without the path condition (sound for `unsat`; a `sat` answer is only a
+                // candidate that is replayed natively or discarded)
+                let mut smt_abs = String::from("null");
+                if theory == Th::Fp && !trivial(claim) {
+                    if let B::Same(l, r) | B::Eq(l, r) = claim {
+                        let (rl, rr) = (symrt::reachable(*l), symrt::reachable(*r));
+                        let shared: std::collections::HashSet<symrt::R> = rl.intersection(&rr).cloned().collect();
+                        if !shared.is_empty() && !shared.contains(&l.0) && !shared.contains(&r.0) {
+                            let mut pr3 = Printer::new(Theory::Fp);
+                            pr3.abstracted = shared;
+                            let cs3 = b2s(&mut pr3, claim);
+                            let body3 = format!("(assert (not {}))\n", cs3);
+                            if pr3.error.is_none() {
+                                let (s3, _) = pr3.finish(&body3, false, None);
+                                smt_abs = format!("\"{}\"", esc(&s3));
+                            }
+                        }
+                    }
+                }
                 // a Float32 identity is also printed over the reals: a real counterexample is a cheap candidate that the
                 // native replay confirms or rejects (it never discharges the Float32 obligation)
                 let mut smt_real = String::from("null");
@@ -222,11 +242,11 @@ fn real_main() {
                 let vars: Vec<String> = names.iter().zip(syms.iter()).map(|(n, s)| format!("[\"{}\",\"{}\"]", esc(n), s)).collect();
                 writeln!(
                     out,
-                    "{{\"case\":\"{}\",\"property\":\"{}\",\"family\":\"{}\",\"class\":\"{}\",\"path\":{},\"role\":\"{}\",\"kind\":\"{}\",\"theory\":\"{}\",\"trivial\":{},\"no_ties\":{},\"detail\":\"{}\",\"encode_error\":{},\"eq_terms\":{},\"vars\":[{}],\"smt_real\":{},\"vars_real\":{},\"smt\":\"{}\"}}",
+                    "{{\"case\":\"{}\",\"property\":\"{}\",\"family\":\"{}\",\"class\":\"{}\",\"path\":{},\"role\":\"{}\",\"kind\":\"{}\",\"theory\":\"{}\",\"trivial\":{},\"no_ties\":{},\"detail\":\"{}\",\"encode_error\":{},\"eq_terms\":{},\"vars\":[{}],\"smt_real\":{},\"vars_real\":{},\"smt_abs\":{},\"smt\":\"{}\"}}",
                     esc(&case.id), case.property, esc(case.family), esc(&case.class), pi, esc(role), kind,
                     if theory == Th::Fp { "fp" } else { "real" }, trivial(claim), case.no_ties, esc(detail),
                     match err { Some(e) => format!("\"{}\"", esc(&e)), None => "null".into() },
-                    eq_terms, vars.join(","), smt_real, vars_real, esc(&smt)
+                    eq_terms, vars.join(","), smt_real, vars_real, smt_abs, esc(&smt)
                 ).unwrap();
             };
             for o in ctx.obls.iter() {
